@@ -210,6 +210,49 @@ def load_part(tier, seed, work, inputs=None):
     return c, bad, texts
 
 
+def load_signature(b):
+    """Coarse identity of a fatal load: terminating signal (or timeout / bad exit) + the abort message with the
+    offending value blanked."""
+    if b["timeout"]:
+        return "timeout"
+    if b["signal"]:
+        m = re.search(r"what\(\):\s*(.*)", b.get("out", ""))
+        what = re.sub(r"'[^']*'", "'..'", m.group(1).strip()) if m else ""
+        return "signal%d:%s" % (b["signal"], what)
+    return "exit%s-without-message" % b["rc"]
+
+
+def load_violations(lbad, texts, work):
+    """One violation per failure identity. A failure with an abort message is identified by that message; a silent
+    one (SIGSEGV ...) by the element path of its minimised input."""
+    groups = {}
+    d = os.path.join(work, "load")
+    nmin = 0
+    for b in sorted(lbad, key=lambda b: len(texts[b["name"]])):
+        sig = load_signature(b)
+        mintext, path = None, None
+        if b["signal"] and sig.endswith(":") and nmin < 12:
+            nmin += 1
+            mintext, path = libvalid.minimise(texts[b["name"]], d, b["signal"], budget=120)
+            sig += path
+        g = groups.setdefault(sig, {"n": 0, "first": b, "min": None})
+        g["n"] += 1
+        if mintext is not None and (g["min"] is None or len(mintext) < len(g["min"])):
+            g["min"] = mintext
+    res = []
+    for sig, g in sorted(groups.items()):
+        b = g["first"]
+        if g["min"] is None and b["signal"]:
+            g["min"], _p = libvalid.minimise(texts[b["name"]], d, b["signal"], budget=120)
+        p = vlib.save_replay(PID, "load-" + vlib.digest(sig), {"kind": "load", "signature": sig, "obs": b, "name": b["name"], "count": g["n"],
+                                                              "text": g["min"] if g["min"] is not None else texts[b["name"]],
+                                                              "original_text": texts[b["name"]][:200000]})
+        res.append({"key": "load:" + sig, "what": "loading %s (%s): rc=%s signal=%s timeout=%s; %d inputs with this failure; minimised input: %s"
+                                                  % (b["name"], b["kind"], b["rc"], b["signal"], b["timeout"], g["n"], (g["min"] or "")[:300].replace("\n", " ")),
+                    "replay": p})
+    return res
+
+
 def main(tier, seed, replay=None):
     t0 = time.time()
     vlib.build()
@@ -242,11 +285,7 @@ def main(tier, seed, replay=None):
     t_flags = time.time() - t0 - t_valid
     lc, lbad, texts = load_part(tier, seed, work)
     t_load = time.time() - t0 - t_valid - t_flags
-    for b in lbad:
-        key = "load:" + vlib.digest(texts[b["name"]])
-        p = vlib.save_replay(PID, "load-" + vlib.digest(texts[b["name"]]), {"kind": "load", "obs": b, "name": b["name"], "text": texts[b["name"]]})
-        violations.append({"key": key, "what": "loading %s (%s): rc=%s signal=%s timeout=%s msg=%s" % (b["name"], b["kind"], b["rc"], b["signal"], b["timeout"], b["msg"]),
-                           "replay": p})
+    violations += load_violations(lbad, texts, work)
 
     rc, new, known = vlib.verdict(PID, violations)
     u = vcov["valid_counts"]["unit"]
